@@ -23,6 +23,8 @@ Verdict of a transcript:
     worker may report an error or keep waiting (file-system lag) - the walk goes on -> `excuse`.
     CANCELLED/TIMEOUT/PREEMPTED/EVICTED: a requeue or a resubmission command must follow (whatever the scheduler
     answers to it); if the transcript ends without one -> `pending_requeue`.
+    A scheduler that changes its mind (a different non-silent accounting answer for the same life of the job after the
+    deciding one) is outside the statement: the worker may rely on either answer -> `contradicted`, nothing is checked.
     RUNNING/PENDING/NOTFOUND/MISSING accounting and failed submissions decide nothing; the statement is silent about
     what the worker does then, except that success must not be reported without a COMPLETED answer -> `excuse`.
 "result exists": the cluster ran the job body to a normal end in some life of the job (a later life that would raise
@@ -43,15 +45,17 @@ class Verdict:
         self.requeues = 0
         self.good = False  # a successful result exists (at the end / at the deciding answer)
         self.last_acct = None
+        self.contradicted = False  # the accounting gave another answer for the same life after the deciding one
 
     def as_dict(self):
         return dict(final=self.final, excuse=list(self.excuse), pending_requeue=self.pending_requeue,
-                    requeues=self.requeues, good=self.good, last_acct=self.last_acct)
+                    requeues=self.requeues, good=self.good, last_acct=self.last_acct, contradicted=self.contradicted)
 
 
 def walk(transcript) -> Verdict:
     v = Verdict()
     ran = False  # the current life of the job has been executed
+    life = decided_life = 0
     for i, e in enumerate(transcript):
         q = e["q"]
         if q == "submit":
@@ -60,10 +64,12 @@ def walk(transcript) -> Verdict:
                 v.requeues += 1
             if e["ans"] == "ok":
                 ran = False  # a new life
+                life += 1
             elif v.final is None:
                 v.excuse.append("submit-" + e["ans"])
         elif q == "requeue":
             ran = False
+            life += 1
             if v.pending_requeue:
                 v.pending_requeue = None
                 v.requeues += 1
@@ -73,18 +79,20 @@ def walk(transcript) -> Verdict:
                 if e["mode"] == "ok" and v.final is None:
                     v.good = True
         elif q == "acct":
-            if v.final is not None:
-                continue
             a = e["ans"]
+            if v.final is not None:
+                if life == decided_life and a not in SILENT and a != transcript[v.decided_by]["ans"]:
+                    v.contradicted = True
+                continue
             v.last_acct = a
             if a == "COMPLETED" and v.good:
                 v.final = "SUCCESS"
-                v.decided_by = i
+                v.decided_by, decided_life = i, life
             elif a == "COMPLETED":
                 v.excuse.append("acct-COMPLETED-without-result")
             elif a == "FAILED":
                 v.final = "ERROR"
-                v.decided_by = i
+                v.decided_by, decided_life = i, life
             elif a in REQUEUE:
                 v.pending_requeue = a
             elif a in SILENT:
@@ -100,6 +108,8 @@ def judge(v: Verdict, outcome: str):
     success = the public call returned a non-errored result carrying the right output;
     error   = it raised or returned an errored result;  hang = nothing was reported within the horizon."""
     out = []
+    if v.contradicted:
+        return out
     if outcome == "success":
         if v.final == "ERROR":
             out.append(("failed-verdict-success-reported", "the scheduler reported FAILED but the job is reported complete"))
